@@ -533,6 +533,10 @@ func Run(tier, replay string) {
 	lap("parse_rows")
 	isoRows = isolation(rep, judged)
 	lap("isolation")
+	// parse -> edit -> observe -> print -> parse histories (MetadataEdit.tla)
+	editHistories(rep, tier)
+	editAllRows(rep, judged)
+	lap("edit_histories")
 
 	// (T) everything recorded is judged by MetadataTrace
 	judge(rep, irRows, vectors, judged)
@@ -1170,6 +1174,20 @@ func runReplay(rep *mbt.Report, path string) {
 			isoRows = append(isoRows, isolation(rep, []*parseRow{{Src: "text", name: na, text: ta}, {Src: "text", name: nb, text: tb}})...)
 		case "negative":
 			negatives(rep)
+		case "editall":
+			name, _ := c["name"].(string)
+			text, _ := c["text"].(string)
+			src, _ := c["src"].(string)
+			if src != "graph" {
+				src = "text"
+			}
+			editAllRows(rep, []*parseRow{{Src: src, name: name, text: text}})
+		case "edit":
+			var h editHist
+			b, _ := json.Marshal(c)
+			json.Unmarshal(b, &h)
+			layout, _ := c["layout"].(string)
+			runEditHists(rep, []editHist{h}, []string{layout})
 		case "parse":
 			src, _ := c["src"].(string)
 			text, _ := c["text"].(string)
